@@ -128,7 +128,28 @@ func c14Scenarios(tier string) []engine.Scenario {
 		}
 		return a
 	}
-	return engine.Sharded(sc, 6)
+	out := engine.Sharded(sc, 6)
+	// with modules that can veto an OAuth2 login: a vetoed callback was answered, so it spent the state
+	pid := authboss.MakeOAuth2PID("google", "7")
+	veto := engine.Scenario{
+		Name: "oauth2+lock+confirm", Depth: depth,
+		Cfg: world.Config{Modules: []string{"auth", "oauth2", "lock", "confirm", "logout"}},
+		Init: func(s *world.Stack) *world.World {
+			w := world.NewWorld("B1", "B2")
+			flows.SeedAcct(s, w, flows.Acct{PID: U1, Password: P1})
+			w.DB.Users[pid] = world.Row{PID: pid, Email: "o@provider.test", OAuth2UID: "7", OAuth2Provider: "google", Confirmed: true}
+			return w
+		},
+		Model: c14Model, Monitor: c14Monitor, Cover: c14Cover,
+		Actions: func(s *world.Stack, w *world.World) []engine.Action {
+			var a []engine.Action
+			a = append(a, oauthActs(w, "B1", []string{"google"}, []string{""}, []string{"c:7", "bad"})...)
+			a = append(a, flows.AdminLock(pid), flows.AdminUnlock(pid), flows.AdminStartConfirm(pid))
+			a = append(a, simple("logout(B1)", func(s *world.Stack) world.Req { return flows.Logout(s, "B1") }))
+			return a
+		},
+	}
+	return append(out, veto)
 }
 
 // c14Codec: injectivity and round trip of MakeOAuth2PID / ParseOAuth2PID.
